@@ -415,5 +415,13 @@ def run(chk: Check) -> None:
     rule_v2(chk)
     rule_v3(chk)
     rule_v4(chk)
+    # V5: the request line is found independently of read boundaries (= C07.S3): a
+    # terminator split across two reads must still be the one that ends the line,
+    # otherwise a valid line is never dispatched and a "line" with an embedded
+    # CRLF can be
+    from .c07 import segmentation_rules
+
+    chk.rule("V5", "the request line is cut at the first terminator however the bytes were split into reads (chunk only appended, nothing read before the append, consistent limits)")
+    segmentation_rules(chk, "V5", chk.proj.func(SERVER_PROTO + ".data_received"))
     chk.trusted = ["CPython ast parser", "engine CFG / inliner / abstract evaluator", "urllib.parse.urlparse field semantics (hostname, username, password, fragment, port)"]
     chk.assumptions = ["acceptance of every grammatical URL is not decided (only C19's bracket clause)"]
